@@ -381,9 +381,10 @@ pub fn replay(case: &Value) -> Vec<(String, Value)> {
 fn wasm_part(report: &mut Report, tier: Tier) -> u64 {
     use harper_wasm::{Dialect, Language, Linter};
     let mut alpha: Vec<&str> = WORDS.to_vec();
-    alpha.extend(["Tset", "THW", "teh"]);
-    let text = "The tset and thw met naïvité, O'Brienx and ŁÓDŹx; teh Tset and THW too.";
-    let tokens_of_interest = ["tset", "thw", "naïvité", "O'Brienx", "ŁÓDŹx", "teh", "Tset", "THW"];
+    // `paris`, `github`: the curated dictionary lists them only with capitals
+    alpha.extend(["Tset", "THW", "teh", "paris", "github"]);
+    let text = "The tset and thw met naïvité, O'Brienx and ŁÓDŹx; teh Tset and THW too, in paris on github.";
+    let tokens_of_interest = ["tset", "thw", "naïvité", "O'Brienx", "ŁÓDŹx", "teh", "Tset", "THW", "paris", "github"];
     let n = alpha.len();
     let depth = tier.pick(2, 3);
     let seqs = crate::e2::sequences(n, depth);
